@@ -46,7 +46,8 @@ JudgeC05(e) ==
 \* ---- C04: whatever route built it, a message serialises to a well-formed frame
 JudgeC04(e) ==
     LET s == e.ser IN
-    IF ~IsBytes(s) \/ ~WellFormed(s) THEN "C04:not-well-formed"
+    IF e.built # "msg" THEN "triv"      \* the property quantifies over constructions that succeed
+    ELSE IF ~IsBytes(s) \/ ~WellFormed(s) THEN "C04:not-well-formed"
     ELSE IF Fields(s).payload # e.payload THEN "C04:payload-not-embedded"
     ELSE IF Fields(s).len # Len(e.payload) THEN "C04:length-field"
     ELSE IF e.clsid # <<>> /\ <<Fields(s).cls, Fields(s).id>> # e.clsid THEN "C04:class-id"
